@@ -1,10 +1,10 @@
 (** Lock model for C14: threads are sequences of acquisitions and releases of reader/writer locks (object 0 is the
-    pager lock, object p+1 the latch of page p, as the lock tap reports them).  Two read semantics:
+    pager lock, every other number one page-latch instance, as the lock tap reports them).  Two read semantics:
     - [recursive]: a read succeeds when no thread holds the lock exclusively, and at once when the thread already
       holds it shared (parking_lot read_recursive: the engine's read latches after fix 82c0144);
     - [fair]: a read also queues behind a waiting writer (parking_lot read: the engine before the fix).
     No proofs in this file. *)
-From Coq Require Import List NArith Bool.
+From Coq Require Import List NArith Bool Lia.
 Import ListNotations.
 Open Scope N_scope.
 
@@ -14,9 +14,12 @@ Record thread := { rest : list act; held : list (N * mode) }.
 Definition sys := list thread.
 
 Definition is_w (m : mode) : bool := match m with MW => true | MR => false end.
-Definition holds (t : thread) (o : N) : bool := existsb (fun h => fst h =? o) (held t).
-Definition holds_w (t : thread) (o : N) : bool := existsb (fun h => (fst h =? o) && is_w (snd h)) (held t).
-Definition holds_r (t : thread) (o : N) : bool := existsb (fun h => (fst h =? o) && negb (is_w (snd h))) (held t).
+Definition holds_l (hd : list (N * mode)) (o : N) : bool := existsb (fun h => fst h =? o) hd.
+Definition holds_w_l (hd : list (N * mode)) (o : N) : bool := existsb (fun h => (fst h =? o) && is_w (snd h)) hd.
+Definition holds_r_l (hd : list (N * mode)) (o : N) : bool := existsb (fun h => (fst h =? o) && negb (is_w (snd h))) hd.
+Definition holds (t : thread) (o : N) : bool := holds_l (held t) o.
+Definition holds_w (t : thread) (o : N) : bool := holds_w_l (held t) o.
+Definition holds_r (t : thread) (o : N) : bool := holds_r_l (held t) o.
 Definition waits_w (t : thread) (o : N) : bool :=
   match rest t with Acq MW o' :: _ => o' =? o | _ => false end.
 
@@ -50,7 +53,6 @@ Fixpoint replace_nth (i : nat) (t : thread) (s : sys) : sys :=
   | x :: r, S j => x :: replace_nth j t r
   end.
 
-(** thread [i] takes its next action if it may *)
 Definition step_at (fair : bool) (s : sys) (i : nat) : sys :=
   match nth_error s i with
   | Some t => if enabled fair s t then replace_nth i (step_thread t) s else s
@@ -63,22 +65,30 @@ Definition unfinished (t : thread) : bool := match rest t with [] => false | _ =
 Definition stuck (fair : bool) (s : sys) : bool :=
   existsb unfinished s && negb (existsb (enabled fair s) s).
 
-(** The discipline, relative to a rank of the objects: a lock is requested only when every lock held has a
-    smaller rank - except that a shared lock already held shared may be requested again - a release is of a
+(** The discipline, relative to a certificate: a class [cls o] for every object and, for some classes, a gate
+    object.  A lock is requested only when it is not held and, for every lock held, either the held lock's class is
+    smaller, or both are in the same class, that class has a gate, and the thread holds the gate exclusively
+    (inside a region guarded by an exclusively held gate any order is allowed; two locks of one region are never
+    held together without it).  A shared lock already held shared may always be requested again.  A release is of a
     held lock, and a thread ends holding nothing. *)
-Fixpoint disciplined (rank : N -> N) (hd : list (N * mode)) (p : list act) : bool :=
+Definition acq_ok (cls : N -> N) (gate : N -> option N) (hd : list (N * mode)) (m : mode) (o : N) : bool :=
+  (match m with MR => holds_r_l hd o | MW => false end)
+  || forallb (fun h => negb (fst h =? o) &&
+                       ((cls (fst h) <? cls o)
+                        || ((cls (fst h) =? cls o) && match gate (cls o) with Some g => holds_w_l hd g | None => false end)))
+             hd.
+
+Fixpoint disciplined (cls : N -> N) (gate : N -> option N) (hd : list (N * mode)) (p : list act) : bool :=
   match p with
   | [] => match hd with [] => true | _ => false end
-  | Acq m o :: r =>
-      ((match m with MR => existsb (fun h => (fst h =? o) && negb (is_w (snd h))) hd | MW => false end)
-       || forallb (fun h => rank (fst h) <? rank o) hd)
-      && disciplined rank ((o, m) :: hd) r
-  | Rel o :: r => existsb (fun h => fst h =? o) hd && disciplined rank (remove_first o hd) r
+  | Acq m o :: r => acq_ok cls gate hd m o && disciplined cls gate ((o, m) :: hd) r
+  | Rel o :: r => holds_l hd o && disciplined cls gate (remove_first o hd) r
   end.
 
-Definition thread_ok (rank : N -> N) (t : thread) : bool := disciplined rank (held t) (rest t).
+Definition thread_ok cls gate (t : thread) : bool := disciplined cls gate (held t) (rest t).
 Definition start (p : list act) : thread := {| rest := p; held := [] |}.
 
-(** rank given as an association list (certificate computed outside) *)
 Fixpoint rank_of (l : list (N * N)) (o : N) : N :=
   match l with [] => 0 | (k, v) :: r => if k =? o then v else rank_of r o end.
+Fixpoint gate_of (l : list (N * N)) (c : N) : option N :=
+  match l with [] => None | (k, v) :: r => if k =? c then Some v else gate_of r c end.
